@@ -219,7 +219,7 @@ Proof.
         unfold c09_tpos_classes. apply in_flat_map. exists (form, i). split; [exact Hid|]. cbn [snd fst]. rewrite Hlk. left. reflexivity. }
       unfold c09_type_site_class in Hc.
       destruct (c09_renamed_away (c9e_id e)) eqn:Era; [|apply c09_pick_eq; right; exact Era].
-      destruct (c09_which_eqb (c09_def_which L (c9e_kind e)) (c09_type_ref_which form (c9t_pos tp))) eqn:Ew; [|cbn in Hc; destruct form, (c9t_pos tp); discriminate].
+      destruct (c09_which_eqb (c09_def_which L (c9e_kind e)) (c09_type_ref_which form (c9t_pos tp))) eqn:Ew; [|cbn [andb negb] in Hc; discriminate].
       apply c09_pick_eq. left. destruct (c09_def_which L (c9e_kind e)), (c09_type_ref_which form (c9t_pos tp)); try discriminate; reflexivity.
     + intros C. exfalso. rewrite Hpos in C. revert C. apply (c09_tposs_pos pd). exact Htp.
   - (* the sealed parent *)
